@@ -44,6 +44,7 @@ const (
 )
 
 var c11FillerRules = 0 // set by the stress test
+var c11LastErr atomic.Value // last transport error of the real-server variant (diagnostics)
 var c11Port = 18611      // only listened on by the runtime variant of the stress test (a free port is chosen then)
 
 func init() {
@@ -255,6 +256,10 @@ var c11Backend *httptest.Server
 func c11GetBackend() *httptest.Server {
 	c11BackendOnce.Do(func() {
 		c11Backend = httptest.NewServer(http.HandlerFunc(func(w http.ResponseWriter, r *http.Request) {
+			// schedule replay: the request is in flight at the backend until the controller lets it return
+			if v, ok := c11Reqs.Load(r.Header.Get(c11ReqHeader)); ok {
+				v.(*c11Req).arrive("backend")
+			}
 			w.Header().Set("X-C11-Backend", "1")
 			w.WriteHeader(200)
 			w.Write([]byte("ok"))
@@ -271,18 +276,28 @@ func c11MustSpec(yaml string) *supervisor.Spec {
 	return s
 }
 
-// c11ServerYAML is generation g of the server spec: consecutive generations differ in the backend,
-// the rewrite target, xForwardedFor and the cache size.
-func c11ServerYAML(g int) string {
+const c11BlockedIP = "10.9.9.9"
+
+// c11ServerYAML is a generation of the server spec: version rv of the rules (backend pa/pb, rewrite
+// target /g<rv>) and version ov of the options (xForwardedFor, the server-level ipFilter that blocks
+// c11BlockedIP in every other version, maxConnections encoding ov for the harness - all of them
+// options the runtime applies without restarting the listener).  The cache
+// size never changes and the rules are byte-identical for equal rv: an options-only update leaves
+// the routing table alone.
+func c11ServerYAML(rv, ov int) string {
 	be := "pa"
-	if g%2 == 0 {
+	if rv%2 == 0 {
 		be = "pb"
+	}
+	blocked := "10.9.9.8"
+	if ov%2 == 0 {
+		blocked = c11BlockedIP
 	}
 	// rules that never match come first: building an instance takes a while, as it does for a real
 	// server with many rules - a request that could see a half-built instance has a window to do so
 	filler := ""
 	for i := 0; i < c11FillerRules; i++ {
-		filler += fmt.Sprintf("- hostRegexp: ^filler%d-[a-z]+\\.g%d\\.test$\n  paths:\n  - pathRegexp: ^/f%d/([a-z]+)/(\\d+)$\n    backend: pa\n", i, g, i)
+		filler += fmt.Sprintf("- hostRegexp: ^filler%d-[a-z]+\\.g%d\\.test$\n  paths:\n  - pathRegexp: ^/f%d/([a-z]+)/(\\d+)$\n    backend: pa\n", i, rv, i)
 	}
 	return fmt.Sprintf(`
 kind: HTTPServer
@@ -291,13 +306,16 @@ port: %d
 keepAlive: true
 https: false
 xForwardedFor: %v
-cacheSize: %d
+maxConnections: %d
+cacheSize: 16
+ipFilter:
+  blockIPs: [%s]
 rules:
 %s- paths:
   - pathPrefix: /in
     backend: %s
     rewriteTarget: /g%d
-`, c11Port, g%2 == 1, 8+(g%2)*8, filler, be, g)
+`, c11Port, ov%2 == 1, 10000+ov, blocked, filler, be, rv)
 }
 
 // c11PipelineYAML is version ver of pipeline name: mark1 -> RateLimiter -> mark2 -> Proxy -> mark3.
@@ -358,7 +376,7 @@ func c11NewWorld(rlSame bool) *c11World {
 		}
 	}
 	w.mux = newMux(httpstat.New(), httpstat.NewTopN(10), w.mapper)
-	w.mux.reload(c11MustSpec(c11ServerYAML(1)), w.mapper)
+	w.mux.reload(c11MustSpec(c11ServerYAML(1, 1)), w.mapper)
 	return w
 }
 
@@ -379,11 +397,11 @@ func (w *c11World) startServer() error {
 	c11Port = l.Addr().(*net.TCPAddr).Port
 	l.Close()
 	hs := &HTTPServer{}
-	hs.Init(c11MustSpec(c11ServerYAML(1)), w.mapper)
+	hs.Init(c11MustSpec(c11ServerYAML(1, 1)), w.mapper)
 	w.hs, w.mux = hs, hs.runtime.mux
 	w.client = &http.Client{Timeout: 30 * time.Second, Transport: &http.Transport{DisableKeepAlives: true}}
 	for i := 0; i < 2000; i++ {
-		if hs.runtime.getState() == stateRunning && c11GenOfInst(w.mux.inst.Load().(*muxInstance)) == 1 {
+		if rv, _ := c11GenOfInst(w.mux.inst.Load().(*muxInstance)); hs.runtime.getState() == stateRunning && rv == 1 {
 			if c, err := net.Dial("tcp", fmt.Sprintf("127.0.0.1:%d", c11Port)); err == nil {
 				c.Close()
 				return nil
@@ -396,25 +414,29 @@ func (w *c11World) startServer() error {
 
 // reloadServer applies generation gen through the object's own path: a new HTTPServer generation
 // inherits the runtime and sends it a reload event; returns when the event loop has applied it.
-func (w *c11World) reloadServer(spec *supervisor.Spec, gen int) error {
+func (w *c11World) reloadServer(spec *supervisor.Spec, rv, ov int) error {
 	hs := &HTTPServer{}
 	hs.Inherit(spec, w.hs, w.mapper)
 	w.hs = hs
-	for i := 0; i < 4000; i++ {
-		if c11GenOfInst(w.mux.inst.Load().(*muxInstance)) == gen {
+	for i := 0; i < 20000; i++ {
+		if r, o := c11GenOfInst(w.mux.inst.Load().(*muxInstance)); r == rv && o == ov {
 			return nil
 		}
 		time.Sleep(time.Millisecond)
 	}
-	return fmt.Errorf("reload event for generation %d was not applied within 4s", gen)
+	return fmt.Errorf("reload event for generation (%d,%d) was not applied within 20s", rv, ov)
 }
 
 // get sends one request over TCP to the real listener; 0 = transport error.
-func (w *c11World) get(id string) int {
+func (w *c11World) get(id, ip string) int {
 	req, _ := http.NewRequest(http.MethodGet, fmt.Sprintf("http://127.0.0.1:%d/in/x", c11Port), http.NoBody)
 	req.Header.Set(c11ReqHeader, id)
+	if ip == "b" {
+		req.Header.Set("X-Real-Ip", c11BlockedIP)
+	}
 	resp, err := w.client.Do(req)
 	if err != nil {
+		c11LastErr.Store(err.Error())
 		return 0
 	}
 	io.Copy(io.Discard, resp.Body)
@@ -434,15 +456,16 @@ func c11GenOfPath(p string) int {
 	return n
 }
 
-func c11GenOfInst(mi *muxInstance) int {
+// c11GenOfInst reads (rules version, options version) out of a mux instance.
+func c11GenOfInst(mi *muxInstance) (rv, ov int) {
 	if mi.spec == nil || len(mi.spec.Rules) == 0 {
-		return 0
+		return 0, 0
 	}
 	last := mi.spec.Rules[len(mi.spec.Rules)-1]
 	if len(last.Paths) == 0 {
-		return 0
+		return 0, 0
 	}
-	return c11GenOfPath(last.Paths[0].RewriteTarget)
+	return c11GenOfPath(last.Paths[0].RewriteTarget), int(mi.spec.MaxConnections) - 10000
 }
 
 // c11VerOfEntity reads the version out of the marker filters of the pipeline stored under name.
@@ -462,9 +485,14 @@ func (w *c11World) c11VerOfEntity(name string) (int, *supervisor.ObjectEntity) {
 	return f.(*c11Mark).spec.Value, e
 }
 
-func c11NewHTTPRequest(id string) *http.Request {
+// c11NewHTTPRequest: client "b" is the address the server-level ipFilter blocks in every other
+// options version.
+func c11NewHTTPRequest(id, ip string) *http.Request {
 	stdr := httptest.NewRequest(http.MethodGet, "http://c11.test/in/x", http.NoBody)
 	stdr.Header.Set(c11ReqHeader, id)
+	if ip == "b" {
+		stdr.Header.Set("X-Real-Ip", c11BlockedIP)
+	}
 	return stdr
 }
 
